@@ -8,9 +8,11 @@ CtxVal(k) == CASE k = "value" -> 5 [] k = "factor" -> 3 [] k = "addend" -> 7
                [] k = "a" -> 11 [] k = "b" -> 13 [] k = "w" -> 17 [] OTHER -> 19
 FreeKeys == {"value", "factor", "addend", "a", "b", "w"}
 
-AllInitCtxs == {[k \in Keys |-> IF k \in S THEN Num(CtxVal(k)) ELSE Absent] : S \in SUBSET FreeKeys}
+\* falsy values: a context entry 0 must still override a default
+ZeroCtx == [k \in Keys |-> IF k \in {"value", "factor", "addend"} THEN Num(0) ELSE Absent]
+AllInitCtxs == {[k \in Keys |-> IF k \in S THEN Num(CtxVal(k)) ELSE Absent] : S \in SUBSET FreeKeys} \cup {ZeroCtx}
 SmallInitCtxs == {[k \in Keys |-> IF k \in S THEN Num(CtxVal(k)) ELSE Absent] :
-                     S \in {{}, {"factor"}, {"a"}, {"value", "addend"}, {"factor", "a", "b"}, FreeKeys}}
+                     S \in {{}, {"factor"}, {"a"}, {"value", "addend"}, {"factor", "a", "b"}, FreeKeys}} \cup {ZeroCtx}
 ListCtxs == {[k \in Keys |-> IF k = "a" THEN List(<<2, 3>>) ELSE IF k = "factor" THEN Num(3) ELSE Absent],
              [k \in Keys |-> IF k = "a" THEN List(<<>>) ELSE Absent]}
 
